@@ -5,6 +5,7 @@ tier="${1:-quick}"
 cd /repo && [ -z "$(git status --porcelain --untracked-files=no)" ] || { echo "repo dirty"; exit 2; }
 for d in /verif/seeded/*/; do
   id="$(basename "$d")"; prop="$(jq -r .property "$d/meta.json")"
+  if jq -e .obsolete "$d/meta.json" >/dev/null; then echo "$id: obsolete (see meta.json), skipped"; continue; fi
   git -C /repo apply "$d/patch.diff" || { echo "$id: patch does not apply"; continue; }
   out="$(cd /verif && ./vcheck "$prop" "$tier" 2>&1)"; rc=$?
   git -C /repo checkout -q -- .
